@@ -103,18 +103,28 @@ impl<T> Sender<T> {
     where
         F: FnOnce(&mut Option<T>),
     {
+        #[cfg(scylla_verif)]
+        crate::verif::trace::emit("merge", "ModBegin", &[]);
         if self.shared.receiver_dropped.load(Ordering::Acquire) {
+            #[cfg(scylla_verif)]
+            crate::verif::trace::emit("merge", "ModLoadFlag", &[("v", 1)]);
             return Err(SendError);
         }
+        #[cfg(scylla_verif)]
+        crate::verif::trace::emit("merge", "ModLoadFlag", &[("v", 0)]);
 
         let has_value = {
             let mut slot = self.shared.slot.lock().unwrap();
             f(&mut slot);
             slot.is_some()
         };
+        #[cfg(scylla_verif)]
+        crate::verif::trace::emit("merge", "ModLocked", &[("some", has_value as i64)]);
 
         if has_value {
             self.shared.notify.notify_one();
+            #[cfg(scylla_verif)]
+            crate::verif::trace::emit("merge", "ModNotify", &[]);
         }
         Ok(())
     }
@@ -124,8 +134,14 @@ impl<T> Drop for Sender<T> {
     fn drop(&mut self) {
         // The flag must be set before notifying, so that a receiver woken by
         // this notification is guaranteed to observe it.
+        #[cfg(scylla_verif)]
+        crate::verif::trace::emit("merge", "SndDropBegin", &[]);
         self.shared.sender_dropped.store(true, Ordering::Release);
+        #[cfg(scylla_verif)]
+        crate::verif::trace::emit("merge", "SndDropFlag", &[]);
         self.shared.notify.notify_one();
+        #[cfg(scylla_verif)]
+        crate::verif::trace::emit("merge", "SndDropNotify", &[]);
     }
 }
 
@@ -158,19 +174,31 @@ impl<T> Receiver<T> {
             // Register in the wait list *before* looking at the slot, so that a
             // concurrent `modify` either is seen below or wakes us up.
             notified.as_mut().enable();
+            #[cfg(scylla_verif)]
+            crate::verif::trace::emit("merge", "RcvEnable", &[]);
 
             if let Some(value) = take() {
+                #[cfg(scylla_verif)]
+                crate::verif::trace::emit("merge", "RcvTake", &[("i", 1), ("some", 1)]);
                 return Some(value);
             }
+            #[cfg(scylla_verif)]
+            crate::verif::trace::emit("merge", "RcvTake", &[("i", 1), ("some", 0)]);
 
             if shared.sender_dropped.load(Ordering::Acquire) {
+                #[cfg(scylla_verif)]
+                crate::verif::trace::emit("merge", "RcvFlag", &[("v", 1)]);
                 // The sender fills the slot before setting the flag, but we
                 // read the slot before the flag - so re-check it once more to
                 // avoid losing that last update.
                 return take();
             }
+            #[cfg(scylla_verif)]
+            crate::verif::trace::emit("merge", "RcvFlag", &[("v", 0)]);
 
             notified.as_mut().await;
+            #[cfg(scylla_verif)]
+            crate::verif::trace::emit("merge", "RcvWake", &[]);
         }
     }
 }
@@ -178,6 +206,38 @@ impl<T> Receiver<T> {
 impl<T> Drop for Receiver<T> {
     fn drop(&mut self) {
         self.shared.receiver_dropped.store(true, Ordering::Release);
+        #[cfg(scylla_verif)]
+        crate::verif::trace::emit("merge", "RcvDrop", &[]);
+    }
+}
+
+/// Public pass-through to the crate-private channel for the external
+/// verification harness. Calls the real endpoints; adds no behaviour.
+#[cfg(scylla_verif)]
+#[allow(missing_docs, unreachable_pub, unnameable_types)]
+pub mod verif_hooks {
+    pub struct VSender<T>(super::Sender<T>);
+    pub struct VReceiver<T>(super::Receiver<T>);
+
+    pub fn channel<T>() -> (VSender<T>, VReceiver<T>) {
+        let (tx, rx) = super::merge_channel::<T>();
+        (VSender(tx), VReceiver(rx))
+    }
+
+    impl<T> VSender<T> {
+        /// `Ok(())` or `Err(())` when the receiver is gone.
+        pub fn modify<F: FnOnce(&mut Option<T>)>(&mut self, f: F) -> Result<(), ()> {
+            self.0.modify(f).map_err(|_| ())
+        }
+    }
+
+    impl<T> VReceiver<T> {
+        pub fn try_recv(&mut self) -> Option<T> {
+            self.0.try_recv()
+        }
+        pub async fn recv(&mut self) -> Option<T> {
+            self.0.recv().await
+        }
     }
 }
 
